@@ -50,7 +50,7 @@ var CMSMutationClasses = []string{
 	"content_edit", "content_replace", "content_remove", "content_add",
 	"etype_change", "outer_oid_change", "attr_contenttype_change",
 	"certs_drop", "certs_replace", "certs_add",
-	"issuer_change", "serial_change", "serial_sign_edit", "unsigned_attrs_shadow_signed", "sig_length_edit", "sig_padding_malformed", "signer_id_key_identifier", "digest_attr_rewrite", "digest_attr_rewrite_and_content",
+	"issuer_change", "serial_change", "serial_sign_edit", "unsigned_attrs_shadow_signed", "sig_length_edit", "sig_padding_malformed", "signer_id_key_identifier", "signed_attr_with_neighbour_oid", "signed_attr_with_neighbour_oid", "countersignature_added", "digest_attr_rewrite", "digest_attr_rewrite_and_content",
 	"sig_flip", "sig_by_other_key", "digestalg_change", "sigalg_change", "null_params_toggle",
 	"second_signer", "outer_strip", "outer_add", "attrs_retag_set", "attrs_remove_all", "attrs_empty",
 	"foreign_content_and_signer", "foreign_content_and_signer", "issuer_string_retag",
@@ -405,6 +405,90 @@ func MutateCMS(t *rapid.T, blob []byte, env MutEnv) ([]byte, string) {
 		m := new(big.Int).SetBytes(em)
 		c := new(big.Int).Exp(m, env.SignerKey.D, env.SignerKey.N)
 		s.Sig.Content = c.FillBytes(make([]byte, k))
+	case "signed_attr_with_neighbour_oid":
+		// made by the key holder: one more signed attribute whose type lies next to a known one in the OID tree (a child of
+		// messageDigest, an id-aa attribute with the same last arc, the arc above). It is a different type. Either the
+		// genuine attributes stay right (and the blob good) or the genuine messageDigest is wrong and the neighbour holds
+		// the digest a careless reader would want.
+		if env.SignerKey == nil || s.Attrs == nil || s.Sig == nil || s.Attrs.Opaque {
+			return nil, na
+		}
+		vals := s.AttrValues(cms.OIDMessageDigest)
+		if len(vals) == 0 || len(vals[0].Content) == 0 {
+			return nil, na
+		}
+		target := rapid.SampledFrom([][]uint64{cms.OIDMessageDigest, cms.OIDMessageDigest, cms.OIDContentType, cms.OIDSigningTime}).Draw(t, "neighbour_of")
+		oid := NeighbourOID(t, target)
+		good := append([]byte{}, vals[0].Content...)
+		var value *der.Node
+		breakGenuine := rapid.Bool().Draw(t, "genuine_digest_wrong")
+		switch {
+		case der.EqualOID(der.OID(target...), cms.OIDMessageDigest...):
+			value = der.Octets(good)
+			if !breakGenuine && rapid.Bool().Draw(t, "neighbour_wrong") {
+				value = der.Octets(FillBytes(t, 32))
+			}
+		case der.EqualOID(der.OID(target...), cms.OIDContentType...):
+			value = der.OID(1, 2, 840, 113549, 1, 7, 6)
+			breakGenuine = false
+		default:
+			value = der.Octets([]byte("not a time")) // (what id-aa-msgSigDigest and friends hold)
+			breakGenuine = false
+		}
+		if breakGenuine {
+			vals[0].Content = append([]byte{}, good...)
+			vals[0].Content[len(good)-1] ^= 0x01
+		}
+		decoy := cms.Attr(oid, value)
+		if rapid.Bool().Draw(t, "neighbour_first") {
+			s.Attrs.Children = append([]*der.Node{decoy}, s.Attrs.Children...)
+		} else {
+			s.Attrs.Children = append(s.Attrs.Children, decoy)
+		}
+		sig, err := cms.SignAttrs(env.SignerKey, s)
+		if err != nil {
+			return nil, na
+		}
+		s.Sig.Content = sig
+	case "countersignature_added":
+		// what a timestamping service adds: an unauthenticated attribute with a countersignature (PKCS#9, a SignerInfo
+		// with or without signed attributes), an RFC 3161 token or a nested signature. Not signed, so it changes nothing.
+		if s.Sig == nil {
+			return nil, na
+		}
+		ias := der.Seq(der.Seq(), der.SmallInt(1))
+		if s.IAS != nil {
+			ias = s.IAS.Clone()
+		}
+		d := sha256.Sum256(s.Sig.Content)
+		signed := der.CtxC(0, cms.Attr(cms.OIDContentType, der.OID(1, 2, 840, 113549, 1, 7, 1)), cms.Attr(cms.OIDSigningTime, der.Prim(23, []byte("240101000000Z"))), cms.Attr(cms.OIDMessageDigest, der.Octets(d[:])))
+		var value *der.Node
+		oid := []uint64{1, 2, 840, 113549, 1, 9, 6}
+		switch rapid.IntRange(0, 5).Draw(t, "countersignature") {
+		case 0:
+			value = der.Seq(der.SmallInt(1), ias, cms.AlgID(cms.OIDSHA256, true), signed, cms.AlgID(cms.OIDRSA, true), der.Octets(FillBytes(t, 256)))
+		case 1: // no signed attributes: the signature is over the countersigned signature value itself
+			value = der.Seq(der.SmallInt(1), ias, cms.AlgID(cms.OIDSHA256, true), cms.AlgID(cms.OIDRSA, true), der.Octets(FillBytes(t, 256)))
+		case 2: // signed attributes without a signing time
+			value = der.Seq(der.SmallInt(1), ias, cms.AlgID(cms.OIDSHA256, true), der.CtxC(0, cms.Attr(cms.OIDMessageDigest, der.Octets(d[:]))), cms.AlgID(cms.OIDRSA, true), der.Octets(FillBytes(t, 256)))
+		case 3:
+			value = der.SmallInt(7)
+		case 4: // RFC 3161 token as Microsoft attaches it
+			oid = []uint64{1, 3, 6, 1, 4, 1, 311, 3, 3, 1}
+			value = der.Seq(der.OID(1, 2, 840, 113549, 1, 7, 2), der.CtxC(0, der.Seq(der.SmallInt(3), der.Set(), der.Seq(der.OID(1, 2, 840, 113549, 1, 9, 16, 1, 4)), der.Set())))
+		default: // nested signature
+			oid = []uint64{1, 3, 6, 1, 4, 1, 311, 2, 4, 1}
+			value = der.Seq(der.OID(1, 2, 840, 113549, 1, 7, 2), der.CtxC(0, der.Seq()))
+		}
+		un := cms.Attr(oid, value)
+		if s.UnAttrs != nil {
+			if s.UnAttrs.Opaque {
+				return nil, na
+			}
+			s.UnAttrs.Children = append(s.UnAttrs.Children, un)
+		} else {
+			s.Node.Children = append(s.Node.Children, der.CtxC(1, un))
+		}
 	case "signer_id_key_identifier":
 		// CMS allows naming the signer by subjectKeyIdentifier: [0] IMPLICIT OCTET STRING in place of issuerAndSerialNumber
 		if s.IAS == nil {
@@ -486,4 +570,27 @@ func MutateCMS(t *rapid.T, blob []byte, env MutEnv) ([]byte, string) {
 		return nil, na
 	}
 	return root.Encode(), class
+}
+
+// NeighbourOID draws an object identifier that lies next to base in the OID tree without being it: a child, a deeper
+// node that ends in the same arc, the node above, a sibling.
+func NeighbourOID(t *rapid.T, base []uint64) []uint64 {
+	last := base[len(base)-1]
+	up := append([]uint64{}, base[:len(base)-1]...)
+	switch rapid.IntRange(0, 6).Draw(t, "oid_neighbour") {
+	case 0:
+		return append(append([]uint64{}, base...), uint64(rapid.IntRange(0, 3).Draw(t, "child")))
+	case 1:
+		return append(append([]uint64{}, base...), last)
+	case 2: // the S/MIME id-aa arc below the same parent: ...9.16.2.<last>
+		return append(up, 16, 2, last)
+	case 3:
+		return append(up, 16, uint64(rapid.IntRange(1, 3).Draw(t, "mid")), last)
+	case 4:
+		return up
+	case 5:
+		return append(up, last+uint64(rapid.SampledFrom([]int{1, 10, 11, 47, 128, 16384}).Draw(t, "sibling")))
+	default: // the same arcs below another root
+		return append([]uint64{1, 3, 6, 1, 4, 1, 311, 2}, base[len(base)-2:]...)
+	}
 }
